@@ -90,6 +90,17 @@ PROPS = {
                      'exact rational time; float absorption (t + d == t) is outside the theorems'],
         partial=['schedule_guard_respected for all primitive frames is not proved (tied by correspondence)'],
     ),
+    'C02': dict(
+        gen=['Kernel', 'Timing', 'Tracked', 'Lock'], props=['C02', 'C01', 'Skeletons'],
+        model=['Prim/KernelModel', 'Machine/Kernel', 'Machine/Step', 'Machine/Run', 'Judge/Judges'], harness='c02',
+        trusted_base=KERNEL_TB + MACHINE_TB + [
+            'configuration independence of the implementation (process, hash seed, heap layout) is a CPython runtime fact: the model has no '
+            'addresses; it is checked by running every scenario in several fresh processes, not proved',
+            'shape templates: loop.py, waitq.py, notification/condition/flag/timing skeletons, tracked.py (listener container and order)',
+        ],
+        assumptions=['programs that trip a usage assertion are excluded from the -O comparison (as the statement says)'],
+        partial=['"independent of process / hash seed / memory layout" is not a theorem (runtime fact, multi-configuration differential only)'],
+    ),
 }
 
 #: texts for MANIFEST.json (level, note, technique, DESIGN.md section)
@@ -169,4 +180,14 @@ MANIFEST_TEXT = {
         note='trusted: Lean kernel + standard axioms; templates; heapq/sortedcontainers by contract; Layer K assumes the schedule guard',
         technique='Lean 4 invariant proof of the event loop for arbitrary behaviours + exact whole-machine differential traces + Lean trace judge',
         design_ref='6 (C01), 3.2, 4.B'),
+    'C02': dict(
+        level='The model trace is a function of the program by construction (no oracle). Lean 4 theorems: fifo_same_time, fifo_now, '
+              'pushBucket_bucket, awakeAll_order (subscription order), backend_same_buckets + hq_pop_min (heap vs sorted dict), '
+              'schedule_debug_irrelevant. Tied by regenerated templates of loop/waitq/notification/tracked code. Every generated '
+              'program (whole API, rational and float time) is run in-process, on the compiled model, and in 4-8 fresh processes '
+              '{PYTHONHASHSEED, junk allocations, USIM_WAITQUEUE=SD, -O}: all traces must coincide.',
+        note='trusted: Lean kernel + standard axioms; templates; the runtime clause (process/hash seed/heap independence) is partial: '
+             'established by multi-configuration differential runs only',
+        technique='Lean 4 ordering theorems + exact whole-machine traces + multi-configuration differential execution',
+        design_ref='6 (C02), 9'),
 }
